@@ -225,7 +225,7 @@ CLAIMED = {
    technique="Lean 4 proof (injectivity + reduction to MAC collision) + differential correspondence + independent RFC 5849 reference",
    design="§5 C11"),
  "C10": dict(
-   text="Lean 4 theorems served_iff (full iff, every header string / token table / type list / requirement list), error_kind_mapping and "
+   text="Lean 4 theorems for BOTH token kinds. RFC 9068 JWT access tokens (Props/C10Jwt.lean over Model/JwtAccessToken.lean, built on the claims model and theorems of C04): served_implies, served_token_is_valid (issuer, audience contains the resource server, unexpired, every required claim), expired_never_served, wrong_typ_never_served, undecodable_is_invalid_token, insufficient_scope_only_for_valid_token, decision_is_served_401_or_403; correspondence on every crafted token (JWS verdict decided independently by HMAC recomputation). Opaque bearer tokens: Lean 4 theorems served_iff (full iff, every header string / token table / type list / requirement list), error_kind_mapping and "
         "rejected_token_never_current over Model/Resource.lean, which mirrors ResourceProtector.validate_request, split(None,1), type lookup, "
         "BearerTokenValidator.validate_token and scope_insufficient. Correspondence: header shapes × token states × scope subsets × requirement specs "
         "against the real core ResourceProtector; RFC 9068 JWT access tokens (34 single mutations, pairs, 11 requirement specs) are decided by an "
